@@ -471,6 +471,18 @@ fn unpadded_bases(tier: Tier, seed: u64) -> Vec<Pkt> {
     v
 }
 
+/// The accessors whose answers the abstract observation flattens: `Option`s (a BYE reason that is absent is not a
+/// reason that is empty) and the string forms.
+fn extra_observation(bytes: &[u8]) -> String {
+    match Packet::parse(bytes) {
+        Ok(Packet::Bye(b)) => format!("reason={:?} string={:?}", b.reason(), b.get_reason_string()),
+        Ok(Packet::App(a)) => format!("name={:?} string={:?}", a.name(), a.get_name_string()),
+        Ok(Packet::Sr(x)) => format!("n_reports={}", x.n_reports()),
+        Ok(Packet::Rr(x)) => format!("n_reports={}", x.n_reports()),
+        _ => String::new(),
+    }
+}
+
 fn transparency_case(l: &mut Local, img: &[u8], n: u8, name: &str, type_name: &str, prefix: &str) {
     let padded = wire::pad_packet(img, n);
     l.evals += 1;
@@ -521,6 +533,35 @@ fn transparency_case(l: &mut Local, img: &[u8], n: u8, name: &str, type_name: &s
                             }
                             Ok(())
                         });
+                        // ... and a padded packet followed by another packet (legal on the wire): both come out
+                        l.transitions += 1;
+                        let follow = guard::catch(|| -> Result<(), String> {
+                            let mut two = padded.clone();
+                            two.extend_from_slice(&[0x81, 203, 0, 1, 0xAB, 0xCD, 0xEF, 0x01]);
+                            let c = Compound::parse(&two).map_err(|e| format!("Compound::parse = {:?}", e))?;
+                            let items: Vec<_> = c.take(4).collect();
+                            if items.len() != 2 || items.iter().any(|r| r.is_err()) {
+                                return Err(format!("padded packet + BYE iterates as {:?}", items.iter().map(|r| r.as_ref().map(|_| "packet").map_err(|e| format!("{:?}", e))).collect::<Vec<_>>()));
+                            }
+                            let mut o2 = observe::obs_packet(items[0].as_ref().unwrap(), padded.len()).map_err(|e| format!("{:?}", e))?;
+                            o2.set_pad(0);
+                            if o2 != plain {
+                                return Err(format!("followed by another packet the content reads {}", o2.short()));
+                            }
+                            Ok(())
+                        });
+                        match follow {
+                            Err(pi) => l.subject_panic(&format!("{}parse-padded-then-bye:{}", prefix, name), &pi, || format!("{} + padding {}", hex_short(img), n)),
+                            Ok(Err(m)) => l.violation(format!("{}padded-packet-followed-by-another:{}", prefix, type_name), || format!("{} + padding {}", hex_short(img), n), || m),
+                            Ok(Ok(())) => {}
+                        }
+                        // what the abstract observation cannot show: absent vs empty (BYE reason), the string accessors
+                        let fine = guard::catch(|| extra_observation(img) == extra_observation(&padded));
+                        match fine {
+                            Err(pi) => l.subject_panic(&format!("{}accessors-of-padded:{}", prefix, name), &pi, || format!("{} + padding {}", hex_short(img), n)),
+                            Ok(false) => l.violation(format!("{}content-changed-by-padding:{}:optional-or-string-accessor", prefix, name), || format!("{} + padding {}", hex_short(img), n), || format!("unpadded: {} padded: {}", extra_observation(img), extra_observation(&padded))),
+                            Ok(true) => {}
+                        }
                         match via {
                             Err(pi) => l.subject_panic(&format!("{}parse-padded-as-compound:{}", prefix, name), &pi, || format!("{} + padding {}", hex_short(img), n)),
                             Ok(Err(m)) => l.violation(format!("{}padded-not-transparent-through-Compound::parse:{}", prefix, type_name), || format!("{} + padding {}", hex_short(img), n), || m),
@@ -545,6 +586,31 @@ pub fn c13(ctx: &mut Ctx) {
         let n = (4 * (idx % 63 + 1)) as u8;
         transparency_case(l, &images[b], n, &bases[b].builder_name(), bases[b].type_name(), "");
     });
+    // reports carrying a profile-specific extension (well-formed, never written by the crate's builders)
+    {
+        let mut ext_imgs: Vec<(Vec<u8>, &'static str)> = Vec::new();
+        for sr in [true, false] {
+            for n in [0usize, 1, 2] {
+                for ew in [1usize, 6, 7] {
+                    let blocks: Vec<Rb> = (0..n).map(|i| gens::sentinel_rb(i, 0x44)).collect();
+                    let p = if sr { Pkt::Sr { ssrc: 1, ntp: 2, rtp: 3, pc: 4, oc: 5, blocks, pad: 0 } } else { Pkt::Rr { ssrc: 1, blocks, pad: 0 } };
+                    let mut img = wire::encode(&p);
+                    for w in 0..ew {
+                        img.extend_from_slice(&[0xE0 | w as u8, 1, 2, 3]);
+                    }
+                    let words = (img.len() / 4 - 1) as u16;
+                    img[2] = (words >> 8) as u8;
+                    img[3] = words as u8;
+                    ext_imgs.push((img, if sr { "Sr" } else { "Rr" }));
+                }
+            }
+        }
+        ctx.bound("reports with extensions", "SR / RR with {0,1,2} blocks and a profile-specific extension of {1,6,7} words x all 63 paddings");
+        ctx.run_space("padding-transparency-reports-with-extension", ext_imgs.len() as u64 * 63, |idx, l| {
+            let (img, ty) = &ext_imgs[(idx / 63) as usize];
+            transparency_case(l, img, (4 * (idx % 63 + 1)) as u8, "report-with-extension", ty, "");
+        });
+    }
     // padding requested from the crate's own builders (both API flavours; the builders set the padding before the
     // content): the packet they write must equally be accepted, report the amount and show the unpadded content
     {
